@@ -215,7 +215,7 @@ Print Assumptions C13_order_total_preorder.
    returns a sorted permutation in which equal elements keep their order -- and there is only one
    such list, so any other stable sort (Rust's driftsort on longer slices) returns the same:
    slice::sort's contract needs exactly that the comparison is a total order. *)
-Theorem C13_sort_contract : forall {A} (cmp : A -> A -> comparison), cmp_ok cmp ->
+Theorem C13_sort_contract : forall (A : Type) (cmp : A -> A -> comparison), cmp_ok cmp ->
   forall l,
   Permutation l (psort cmp l) /\ Sorted (cmp_le cmp) (psort cmp l) /\
   (forall a, filter (eqv cmp a) (psort cmp l) = filter (eqv cmp a) l) /\
@@ -226,7 +226,7 @@ Proof.
   split; [intros a; apply psort_stable; assumption|]. split; [intros l'; apply stable_sort_unique; assumption|].
   apply psort_id, Ha.
 Qed.
-Check @C13_sort_contract : forall {A} (cmp : A -> A -> comparison), cmp_ok cmp ->
+Check C13_sort_contract : forall (A : Type) (cmp : A -> A -> comparison), cmp_ok cmp ->
   forall l,
   Permutation l (psort cmp l) /\ Sorted (cmp_le cmp) (psort cmp l) /\
   (forall a, filter (eqv cmp a) (psort cmp l) = filter (eqv cmp a) l) /\
